@@ -4,7 +4,7 @@
 S=$1; M=$2; shift 2
 WT=/tmp/wt/s$S; ST=/tmp/stage_s$S
 [ -d $WT ] || { git -C /repo worktree add -q --detach $WT && cp /repo/Cargo.lock $WT/; }
-git -C $WT checkout -q -- . ; git -C $WT apply /verif/seeded/$M/patch.diff || { echo "$M: patch does not apply"; exit 9; }
+git -C $WT checkout -q -- . ; git -C $WT apply /verif/${PDIR:-seeded}/$M/patch.diff || { echo "$M: patch does not apply"; exit 9; }
 cd /verif
 for id in "$@"; do
   out=$(VERIF_SEED=${VERIF_SEED:-0} VERIF_STAGE_FROZEN=${FROZEN:-1} VERIF_REPO=$WT VERIF_STAGE=$ST ./check $id --tier ${TIER:-quick} 2>/tmp/psens_err_$S.txt); rc=$?
